@@ -48,6 +48,7 @@ type Cfg struct {
 	Probe       bool // probe(name) calls (C07)
 	Carriers    bool
 	NonIterable bool // allow `for` over a scalar (error arm of C06)
+	NoInterp    bool // no string interpolation (position checks)
 	Wild        bool // any operand kind anywhere (totality checks)
 	WildFilters []string
 }
@@ -194,6 +195,9 @@ func (g *G) leaf(ty Ty) *m.E {
 		}
 		return m.ENum(float64(g.intn("int", 0, 9)))
 	case TStr:
+		if g.C.HostileText && g.intn("mlstr", 0, 4) == 0 {
+			return m.EStr(pickS(g, "mls", []string{"x\ny", "\n", "l1\nl2\n", "é\tz"}))
+		}
 		return m.EStr(pickS(g, "str", strPool))
 	case TBool:
 		return m.EBool(g.flip("bool"))
@@ -308,7 +312,7 @@ func (g *G) strExpr(d int) *m.E {
 	case 3:
 		// interpolation: literal parts without quotes, '#{' or backslashes;
 		// no double-quoted string inside an interpolation (region, see DESIGN.md)
-		if g.inInterp > 0 {
+		if g.inInterp > 0 || g.C.NoInterp {
 			return g.leaf(TStr)
 		}
 		g.inInterp++
